@@ -624,8 +624,9 @@ def describe_instance(op):
             if np.iscomplexobj(op.pad_const) else float(op.pad_const)), int(bool(op.is_linear)))
 
 
-def nd_line(kind, m, p, shape, sides, c, X, axis):
-    return 'nd op={} method={} pad={} ndim={} shape={} axis={} dx={} c={} f={}'.format(
+def nd_line(kind, m, p, shape, sides, c, X, axis, opname='nd'):
+    """`nd`: the 3-d model (Idx triples); `ndn`: the any-ndim model (fdAxisN & co)"""
+    return opname + ' op={} method={} pad={} ndim={} shape={} axis={} dx={} c={} f={}'.format(
         kind, m, p, len(shape), ','.join(str(n) for n in shape), axis if axis is not None else 0,
         ','.join(fs(s) for s in sides), cs(c), ';'.join(cl(x.flat()) for x in X))
 
@@ -662,6 +663,38 @@ def op_plans(ctx, reps):
                         sv = 'plain'
                 yield dict(kind=kind, method=m, pad=p, ndim=nd, shape=shape, sides=sides,
                            cplx=cplx, c=c, axis=axis, use_out=rng.random() < 0.4, sv=sv,
+                           vseed=rng.getrandbits(32))
+
+
+NDN_DIMS = (1, 2, 3, 4, 5)
+
+
+def opn_plans(ctx, reps):
+    """ROUND 4: the four classes on uniform_discr spaces of ndim 1..5 for the any-ndim model
+    (driver op `ndn`: fdAxisN / gradientN / divergenceN / laplacianN).  ndim 4, 5: every
+    (class, pad mode); ndim 1..3: a random pad mode per class (the 3-d model has its own stream)."""
+    rng = ctx.rng
+    for kind, nd in itertools.product(KINDS, NDN_DIMS):
+        pads = PADS if nd >= 4 else [rng.choice(PADS) for _ in range(2)]
+        for p in pads:
+            for rep in range(reps):
+                m = rng.choice(METHODS) if kind != 'lap' else 'forward'
+                shape = tuple(rng.choice([2, 3, 3, 4] if nd >= 4 else [2, 3, 4, 5])
+                              for _ in range(nd))
+                if int(np.prod(shape)) > 250:
+                    shape = tuple(min(n, 3) for n in shape)
+                sides = tuple(rng.choice([1.0, 0.5, 2.0]) for _ in range(nd))
+                cplx = rng.random() < 0.3
+                if p == 'constant':
+                    c = rng.choice([0, 2, -1.5] if not cplx else [0, 1 + 2j, -3])
+                else:
+                    c = rng.choice([0, 0, 3])
+                axis = rng.randrange(nd) if kind == 'pd' else None
+                if kind == 'pd' and rep == 0 and nd >= 4:
+                    axis = nd - 1 if p in PADS[::2] else 0    # first and last axis: swapaxes
+                yield dict(kind=kind, method=m, pad=p, ndim=nd, shape=shape, sides=sides,
+                           cplx=cplx, c=c, axis=axis, use_out=rng.random() < 0.4,
+                           sv=rng.choice(['plain', 'plain', 'shifted']), ndn=True,
                            vseed=rng.getrandbits(32))
 
 
@@ -722,7 +755,8 @@ def run_op_case(pl):
     n_out = nd if kind == 'grad' else 1
     xs = [rand_int_array(r, shape, cplx) for _ in range(n_in)]
     X = [XArr.of(a) for a in xs]
-    line = nd_line(kind, m, p, shape, sides, cc, X, axis)
+    opname = 'ndn' if pl.get('ndn') else 'nd'
+    line = nd_line(kind, m, p, shape, sides, cc, X, axis, opname)
     if op is None:
         rec['lines'].append((line, 'call', 'err:value', None))
         if want != 'err:value':
@@ -827,14 +861,14 @@ def run_op_case(pl):
             neg, k2, m2, p2, c2, _ = ainst
             if k2 in KINDS and (m2 in METHODS or k2 == 'lap') and p2 in PADS:
                 aline = nd_line(k2, m2 or 'forward', p2, shape, sides, c2, Y,
-                                axis if k2 == 'pd' else None)
+                                axis if k2 == 'pd' else None, opname)
                 Rs = [XArr(a.shape, [scal(-1, v) for v in a.flat()]) for a in R4] if neg else R4
                 rec['lines'].append((aline, 'adjoint-call', 'ok', Rs))
     return rec
 
 
-def ops_stream(ctx, reps, report=True):
-    recs = [run_op_case(pl) for pl in op_plans(ctx, reps)]
+def ops_stream(ctx, reps, report=True, ndn=False):
+    recs = [run_op_case(pl) for pl in (opn_plans if ndn else op_plans)(ctx, reps)]
     lines = [l[0] for r in recs for l in r['lines']] + [c[0] for r in recs for c in r['checks']]
     outs = core.run_driver('C13', lines)
     k = 0
@@ -842,8 +876,13 @@ def ops_stream(ctx, reps, report=True):
     kc = n_lines
     for r in recs:
         ctx.case(r['sig'], sample=r['desc'] if len(ctx.samples) < 12 and r['sig'] else None)
-        ctx.hit('op/{}/{}'.format(r['desc']['kind'], r['desc']['pad']))
-        ctx.hit('opspace/' + r['desc'].get('sv', 'plain'))
+        if ndn:
+            ctx.hit('opn/ndim={}/{}'.format(r['desc']['ndim'], r['desc']['kind']))
+            if r['desc']['ndim'] >= 4:
+                ctx.hit('opn/ndim>=4/{}'.format(r['desc']['pad']))
+        else:
+            ctx.hit('op/{}/{}'.format(r['desc']['kind'], r['desc']['pad']))
+            ctx.hit('opspace/' + r['desc'].get('sv', 'plain'))
         for pr in r['problems'][:2]:
             ctx.violation(r['key'], pr, dict(r['desc'], kind2='op'))
         for (line, what, st, R) in r['lines']:
@@ -1343,6 +1382,7 @@ def run(ctx):
     fd_general_stream(ctx, [2, 3, 5, 7] if ctx.quick else [2, 3, 4, 5, 6, 7, 10])
     fd_variants_stream(ctx, 4 if ctx.quick else 30)
     ops_stream(ctx, 1 if ctx.quick else 12)
+    ops_stream(ctx, 1 if ctx.quick else 4, ndn=True)
     ops_matrix_stream(ctx, [(2,), (3,), (2, 3), (2, 2, 2)] if ctx.quick else
                       [(2,), (3,), (4,), (5,), (2, 2), (2, 3), (3, 2), (3, 4), (2, 2, 2),
                        (2, 3, 2), (3, 2, 3)])
@@ -1357,6 +1397,8 @@ EXPECTED_BRANCHES = sorted(
     {'fdcall/in=' + f for f in IN_FORMS} | {'fdcall/out=' + f for f in OUT_FORMS} |
     {'op/{}/{}'.format(k, p) for k in KINDS for p in PADS} |
     {'opspace/' + v for v in SPACE_VARIANTS} | {'opmat/' + k for k in KINDS} |
+    {'opn/ndim={}/{}'.format(d, k) for d in NDN_DIMS for k in KINDS} |
+    {'opn/ndim>=4/' + p for p in PADS} |
     {stratum_of(k) for k in KINDS} |
     {'opt/{}-explicit:{}'.format('domain' if k == 'div' else 'range', o)
      for k in KINDS for o in X_OPTIONS[k]})
@@ -1372,6 +1414,7 @@ def search(ctx, broken):
     fd_variants_stream(ctx, 40)
     ops_explicit_stream(ctx, [(2,), (3,), (4,), (2, 3), (3, 2), (2, 2, 3)], True)
     ops_stream(ctx, 8)
+    ops_stream(ctx, 3, ndn=True)
     ops_matrix_stream(ctx, [(2,), (3,), (4,), (6,), (2, 2), (3, 3), (2, 4), (2, 2, 3)])
 
 
